@@ -39,7 +39,7 @@ var properties = map[string]*propDef{
 		NotDecided:  "that the rune classes of scanSymbol / scanMetadata match an external description (the code is the documentation there); bounded-exhaustive acceptance against an independent recogniser.",
 	},
 	"C05": {
-		Rules:     []string{"CONVORDER", "CLASSIFY", "APPLY", "PLAYLOOP", "OPT"},
+		Rules:     []string{"CONVORDER", "CLASSIFY", "APPLY", "PLAYLOOP", "OPT", "TAB-KEYSIG", "SCALEWIRE", "TAB-NOTE"},
 		Technique: techPath + ": call ordering in ASTConverter.Convert, linearity of Key.Apply in the tonic",
 		Explanation: "a `{key=...}` change is applied (metadata -> instance -> scale switch) before the carrying chord is converted, for chords and for rests, with every error returned, and the new scale persists (pointer receiver); mixed notation is refused before anything is converted; the second sentence restricted to pitches: in Key.Apply the tonic has coefficient 1 in every emitted pitch and occurs nowhere else, so changing the key shifts every pitch by the tonic distance; the only other key-dependent output is the key-signature event.",
 		NotDecided:  "the first sentence as stated: equality of the two converters' outputs over all progressions is a relation between two computations over runtime values.",
@@ -57,7 +57,7 @@ var properties = map[string]*propDef{
 		NotDecided:  "microseconds-per-quarter arithmetic and denominator encoding (gomidi); UTF-8 byte identity through yaml.v3.",
 	},
 	"C08": {
-		Rules:     []string{"NOTE", "PLAYLOOP", "PENDING", "SELECT", "OPMAP", "TRACKCOUNT", "TAB-DYNAMICS"},
+		Rules:     []string{"NOTE", "PLAYLOOP", "PENDING", "SELECT", "OPMAP", "TRACKCOUNT", "TAB-DYNAMICS", "REJECT"},
 		Technique: techPath + ": on/off pairing, Close post-domination, meta ops only via MetaTrack",
 		Explanation: "crd's side of the SMF contract: every track is closed exactly once, after the last instance, and nothing is written after it; every note-on has a note-off of the same key and channel in the same call; tempo / time / key signature ops are created only through addMeta, MetaTrack maps to track 0 only, fixed ops never reach track 0 when N >= 2; N tracks are built and all are serialised with Add's error propagated; velocities <= 127.",
 		NotDecided:  "header bytes, chunk lengths, variable-length quantities and data-byte masking: gomidi, trusted.",
@@ -87,7 +87,7 @@ var properties = map[string]*propDef{
 		NotDecided:  "sources outside the list (unsafe, cgo, finalisers - none present); the operating system.",
 	},
 	"C13": {
-		Rules:     []string{"TAB-KEYSIG", "SCALEWIRE", "TAB-REGEX"},
+		Rules:     []string{"TAB-KEYSIG", "SCALEWIRE", "TAB-REGEX", "OPT"},
 		Technique: techTab + ": 28 signature rows against signatures derived from the step patterns",
 		Explanation: "every row of the signature table equals the signature derived by walking the major / natural-minor step pattern from the tonic (not copied from a table); the 15 major and 13 minor keys exist; order of flats B E A D G C F by stacking fifths; flats take the first n, sharps the last n; the tonic-to-ring-index table; altered letters of every row equal the derived scale's; NewScale applies a row as stated and refuses keys without a row.",
 		NotDecided:  "NewScale's output as a computed value (it is the composition of checked tables with structurally checked wiring).",
@@ -111,7 +111,7 @@ var properties = map[string]*propDef{
 		NotDecided:  "that GenerateAttributes computes the list (its tables and loop bounds are checked and the file is compared with an independent generator, the function itself is not evaluated).",
 	},
 	"C17": {
-		Rules:     []string{"TAB-DIATONIC", "TAB-LEXNAMES", "TAB-CHORDS", "TAB-KEYSIG", "SCALEWIRE"},
+		Rules:     []string{"TAB-DIATONIC", "TAB-LEXNAMES", "TAB-CHORDS", "TAB-KEYSIG", "SCALEWIRE", "TAB-NOTE", "TAB-DEGREE", "APPLY"},
 		Technique: techTab + ": diatonic name tables against stacked thirds through chord.yml; printed names against the lexer's rune tables",
 		Explanation: "for each mode and degree the chord named in the table, resolved through chord.yml, has exactly the pitch set of thirds stacked on that degree of the derived scale (right qualities, only scale tones, for all 28 keys because the specification is transposition invariant and TAB-KEYSIG ties each key to its derived scale); names are paired with scale notes by index; every printed chord lexes back as SYLLABLE [accidental] SYMBOL, with `_` exactly where a digit would otherwise lex as NUMBER.",
 		NotDecided:  "the end-to-end pipe `text conv | write` as an execution.",
